@@ -94,7 +94,7 @@ def run(ctx, R):
         e = e["else"]
         while e["k"] == "Block" and not e["stmts"] and "expr" in e:
             e = e["expr"]
-    if len(pc) < 6 or len(lc) < 3:
+    if len(pc) < 5 or len(lc) < 3:
         raise AnchorLost("if-chains: printer %d branches, lexer %d branches" % (len(pc), len(lc)))
     names = ["letter-digit", "graphic", "solo-cut-semicolon"]
     for i, nm in enumerate(names):
@@ -111,14 +111,21 @@ def run(ctx, R):
     # solo ! ; : nothing may follow
     solo_ok = any(x["k"] == "MethodCall" and x["name"] == "is_none" for x in walk(pc[2][1]))
     R.ob("C55:solo:single-character", solo_ok, "! and ; are unquoted only as single-character atoms", F.where(nq))
-    # [] and {}
+    # [] and {}: the branches that test the first character against a literal bracket (found by what they test, not by
+    # their place in the chain); a branch that accepts several openers and several closers accepts every combination
     br = {}
-    for cond, then in pc[3:5]:
+    for cond, then in pc[3:]:
         fc = lit_chars(cond)
-        br[tuple(sorted(fc))] = lit_chars(then)
-    R.ob("C55:bracket-atoms", br == {("[",): {"]"}, ("{",): {"}"}}, "extra unquoted atoms: %s (oracle: [] and {})" % br, F.where(nq))
+        if fc and fc <= {"[", "{"} and not classes(cond):
+            for o in fc:
+                br.setdefault(o, set()).update(lit_chars(then))
+    R.ob("C55:bracket-atoms", br == {"[": {"]"}, "{": {"}"}}, "atoms starting with a bracket that are written unquoted: %s (oracle: [] and {} only)"
+         % {k: sorted(v) for k, v in br.items()}, F.where(nq))
     # solo characters that always need quotes
-    solo_cond, solo_then = pc[5]
+    solo = [(c, t) for c, t in pc[3:] if classes(c) == {"solo_char"}]
+    if len(solo) != 1:
+        raise AnchorLost("non_quoted_token: the solo_char branch (%d)" % len(solo))
+    solo_cond, solo_then = solo[0]
     R.ob("C55:solo-char-class", classes(solo_cond) == {"solo_char"}, "last branch tests %s" % sorted(classes(solo_cond)), F.where(nq))
     excl = lit_chars(solo_then)
     ORACLE_EXCL = {"(", ")", "}", "]", ",", "%", "|"}
